@@ -238,5 +238,24 @@ fn load_index_from_file(
     // The records array immediately follows
     let records_offset = 4 + 8 + 8 + mph_bytes_len as u64 + 8 + bloom_bytes_len as u64;
 
+    // The file is written in the background and never fsynced: a crash can cut it short
+    // anywhere. Every record and the offsets it points to have to lie inside the file.
+    let file_len = file.metadata()?.len();
+    let mut records = vec![0u8; n as usize * RECORD_SIZE];
+    file.read_exact_at(&mut records, records_offset)
+        .map_err(|_| StreamIndexError::CorruptRecord {
+            offset: records_offset,
+        })?;
+    for (i, record) in records.chunks_exact(RECORD_SIZE).enumerate() {
+        let offsets_offset =
+            u64::from_le_bytes(record[RECORD_SIZE - 12..RECORD_SIZE - 4].try_into().unwrap());
+        let offsets_len = u32::from_le_bytes(record[RECORD_SIZE - 4..].try_into().unwrap());
+        if offsets_offset + offsets_len as u64 * 8 > file_len {
+            return Err(StreamIndexError::CorruptRecord {
+                offset: records_offset + (i * RECORD_SIZE) as u64,
+            });
+        }
+    }
+
     Ok((mph, n, records_offset, bloom))
 }
